@@ -25,7 +25,7 @@ def levels(tier):
         ]
     return [
         {"name": "n3-wide", "n": 3, "alphabet": ["we", "delwe", "page", "rule", "reopen", "clear"], "rule_patterns": ["path1"], "pool": POOL[:2]},
-        {"name": "rule-restart-n4", "n": 4, "prelude": [["page", 1, False]], "alphabet": ["rule", "reopen", "page"], "rule_patterns": ["path1"]},
+        {"name": "rule-restart-n4", "n": 4, "prelude": [["page", 1, False]], "alphabet": ["rule", "reopen", "page"], "rule_patterns": ["path1"], "pool": POOL[:2]},
         {"name": "attach-n4", "n": 4, "prelude": [["we", [[0, 1]]]], "alphabet": ["we", "addprefix", "moveprefix", "page"], "pool": POOL[:2]},
         {"name": "n5", "n": 5, "alphabet": ["we", "delwe", "page", "reopen"], "pool": POOL[:2]},
     ]
